@@ -547,3 +547,47 @@ func (c *Ctx) declRuneCount() {
 	c.axioms = append(c.axioms, "(forall ((s String)) (! (and (<= 0 (ext.runecount s)) (<= (ext.runecount s) (str.len s))) :pattern ((ext.runecount s))))")
 	c.trusted["utf8.RuneCountInString is uninterpreted with 0 <= n <= len(s)"] = true
 }
+
+// tdivTerm / tmodTerm: Go's truncated division; a positive literal divisor gets the short form.
+func tdivTerm(a, b string) string {
+	if isPosLit(b) {
+		return "(ite (>= " + a + " 0) (div " + a + " " + b + ") (- (div (- " + a + ") " + b + ")))"
+	}
+	return "(tdiv " + a + " " + b + ")"
+}
+
+func tmodTerm(a, b string) string {
+	if isPosLit(b) {
+		return "(ite (>= " + a + " 0) (mod " + a + " " + b + ") (- (mod (- " + a + ") " + b + ")))"
+	}
+	return "(tmod " + a + " " + b + ")"
+}
+
+func isPosLit(b string) bool {
+	if b == "" || b == "0" {
+		return false
+	}
+	for _, r := range b {
+		if r < '0' || r > '9' {
+			return false
+		}
+	}
+	return true
+}
+
+// declBits: bit-level meaning of the single-bit idioms x | (1<<k) and x & (1<<k).
+// bits.bit(x,k) is "bit k of x"; the axioms are the defining facts of setting and testing one bit.
+func (c *Ctx) declBits() {
+	if c.declared["bits.bit"] {
+		return
+	}
+	c.declareFun("bits.bit", []string{"Int", "Int"}, "Bool")
+	c.declareFun("bits.set", []string{"Int", "Int"}, "Int")
+	c.declareFun("bits.and1", []string{"Int", "Int"}, "Int")
+	c.declareFun("bits.pow2", []string{"Int"}, "Int")
+	c.uses["quant"] = true
+	c.axioms = append(c.axioms,
+		"(forall ((x Int) (k Int) (j Int)) (! (= (bits.bit (bits.set x k) j) (or (= j k) (bits.bit x j))) :pattern ((bits.bit (bits.set x k) j))))",
+		"(forall ((j Int)) (! (not (bits.bit 0 j)) :pattern ((bits.bit 0 j))))")
+	c.trusted["single-bit idioms x|(1<<k), x&(1<<k) are modelled by an uninterpreted bit predicate with the set/test axioms (0 <= k < width assumed by the masks n&63)"] = true
+}
